@@ -43,3 +43,13 @@ def register(m):
     Q = "symplyphysics/core/symbols/quantities.py"
     m("C02", "c02-quantity-ge-with-tolerance", Q, "    return scale_factor(lhs) >= scale_factor(rhs)", "    return scale_factor(lhs) >= scale_factor(rhs) - 1e-12", "P7")
     m("C02", "c02-quantity-positive-threshold", Q, "            return scale_factor(self) >= 0", "            return scale_factor(self) >= -1e-15", "P7")
+
+
+_o2b = register
+
+
+def register(m):
+    _o2b(m)
+    Q = "symplyphysics/core/symbols/quantities.py"
+    m("C02", "c02-quantity-order-ignores-dimension-regression", Q,
+      "    if not (is_any_dimension(lhs.scale_factor) or is_any_dimension(rhs.scale_factor) or\n            SI.get_dimension_system().equivalent_dims(lhs.dimension, rhs.dimension)):\n        return None\n", "", "P7")
